@@ -155,14 +155,18 @@ def check(cx):
             r3.violation('teardown|conditional-clean|%s.%s' % (sp.split('::')[-1], fname), 'when a session ends its nick is removed from %s.%s '
                          'only under an extra condition (%s): some histories leave a stale entry behind'
                          % (sp.split('::')[-1], fname, show(removed_by_field[fname][0].pc)[-120:]), loc=cx.loc(removed_by_field[fname][0].node))
-    hist = [(e, x) for e, x in effs if x['op'] in ('push',) and 'nick_histories' in path_of(x['place'])]
+    # the record is added by a push onto the nick's list or by inserting a new list that holds it (first departure of that nick):
+    # exactly one of them on every path
+    hist = [(e, x) for e, x in effs if 'nick_histories' in path_of(x['place']) and 'history_entry' in repr(x['args'])
+            and (x['op'] == 'push' or (x['op'] == 'insert' and path_of(x['place'])[-1:] == ['nick_histories']))]
     r3.instance('one WHOWAS record per departure')
     ent = ('some_of', ('call', 'std::collections::HashMap::<K, V, S>::remove', USERS, NICKT))
-    okh = len(hist) == 1 and mentions(hist[0][1]['place'], NICKT) and 'history_entry' in repr(hist[0][1]['args'])
+    okh = len(hist) >= 1 and all(mentions(x['place'], NICKT) or mentions(x['args'][:1], NICKT) for e, x in hist) and \
+        all(sat(And(a[0].pc, b[0].pc)) is None for i_, a in enumerate(hist) for b in hist[i_ + 1:])
     if okh:
         # unconditional once the user was found in the registry
         was = [a for a in atoms(hist[0][0].pc) if a[0] == 'is' and a[2] == 'Some' and a[1][0] == 'call' and a[1][1].endswith('::remove')]
-        okh = bool(was) and entails(And(is_some(NICK_OPT), Atom(CONN_AUTH), *[Atom(a) for a in was]), hist[0][0].pc)[0]
+        okh = bool(was) and entails(And(is_some(NICK_OPT), Atom(CONN_AUTH), *[Atom(a) for a in was]), Or(*[e.pc for e, x in hist]))[0]
     if not okh:
         r3.violation('teardown|whowas-record', 'a departing user does not get exactly one WHOWAS record (its own history entry under its nick)',
                      loc=ft)
